@@ -68,6 +68,7 @@ def _cbmc_watchdog(stop):
     lim_kb = MEM_LIMIT_GB * 1024 * 1024
     while not stop.wait(3.0):
         try:
+            biggest = (0, None)
             for pid in os.listdir("/proc"):
                 if not pid.isdigit():
                     continue
@@ -80,8 +81,20 @@ def _cbmc_watchdog(stop):
                     if m and int(m.group(1)) > lim_kb:
                         log("[kani] cbmc %s exceeds %d GB resident: killed (its harness becomes undecided)" % (pid, MEM_LIMIT_GB))
                         os.kill(int(pid), 9)
+                    elif m and int(m.group(1)) > biggest[0]:
+                        biggest = (int(m.group(1)), int(pid))
                 except (OSError, ValueError):
                     continue
+            # machine-wide guard (no swap here): below 4 GB of available memory the largest solver goes, before the kernel's
+            # OOM killer picks an arbitrary process (a driver, a compiler) and a whole batch is lost
+            with open("/proc/meminfo") as f:
+                ma = re.search(r"MemAvailable:\s+(\d+) kB", f.read())
+            if ma and int(ma.group(1)) < 4 * 1024 * 1024 and biggest[1]:
+                log("[kani] %d MB available: largest cbmc %s (%d MB) killed (its harness becomes undecided)" % (int(ma.group(1)) // 1024, biggest[1], biggest[0] // 1024))
+                try:
+                    os.kill(biggest[1], 9)
+                except OSError:
+                    pass
         except OSError:
             pass
 
